@@ -74,6 +74,15 @@ def symbol(op, roles, validated=False):
             if pk in ("uncompressed", "compressed"):
                 v = p.parts[0][1]
                 enc = "" if pk == "uncompressed" else "COMPRESSED:"
+                from .alg import Ite
+
+                probe = v
+                while isinstance(probe, Ite):
+                    probe = probe.a
+                if isinstance(v, Ite) and isinstance(probe, Pt):
+                    return ("append_point", label, enc + "point:" + roles.role_of(v))
+                if isinstance(v, Ite) and isinstance(probe, Sc):
+                    return ("append_scalar", label, enc + "scalar:" + roles.role_of(v))
                 if isinstance(v, Pt):
                     return ("append_point", label, enc + "point:" + roles.role_of(v))
                 if isinstance(v, Sc):
